@@ -59,7 +59,14 @@ func VerifH_TransportFault() {
 		vrt.Cover("fault-rpc2-ok")
 	}
 	if kind == 0 {
-		vrt.Assert(err1 == nil && err2 == nil, "without a fault both RPCs succeed before the peer's EOF is seen")
+		// RPC 1 is over before the reader can get past RPC 2's response (it waits for
+		// stream 2 to exist), so the peer's EOF cannot touch it. RPC 2 may lose the race
+		// between returning its response and the EOF closing the transport (its final
+		// Close packet can then fail): it may report an error, but never a wrong response.
+		vrt.Assert(err1 == nil, "the RPC completed before the peer went away succeeds")
+		if err2 == nil {
+			vrt.Cover("fault-eof-both-ok")
+		}
 	}
 	if tr.Dead {
 		vrt.Cover("fault-hit")
@@ -123,4 +130,60 @@ func VerifH_FaultWhileWriteParked() {
 	vrt.Assert(tr.Closes == 1, "the transport is closed exactly once")
 	vrt.Assert(vrt.Unfinished() == 0, "no goroutine is left behind")
 	vrt.Cover("fault-parked-end")
+}
+
+// VerifH_SendOnFailedTransport: a client stream sends three messages (one larger than a
+// tiny writer buffer, so that the write happens inside the frame writer's own flush); the
+// k-th transport write fails. A send during or after the failure must report an error -
+// it may not claim success for bytes that never reached the transport - and every send
+// that reported success is completely on the wire.
+func VerifH_SendOnFailedTransport() {
+	tr := &hx.Transport{}
+	k := vrt.Int("k")
+	vrt.Assume(k >= 1 && k <= vrt.Param("maxk", 5))
+	tr.FaultWrite = k
+	wsize := 0
+	switch vrt.Choice("wsize", 3) {
+	case 1:
+		wsize = 1
+	case 2:
+		wsize = 8
+	}
+	conn := NewWithOptions(tr, Options{Manager: drpcmanager.Options{WriterBufferSize: wsize}})
+	enc := hx.ByteEnc{}
+	st, err := conn.NewStream(hx.NewCtx(), "rpc", enc)
+	if tr.Dead {
+		vrt.Assert(err != nil, "a NewStream whose invoke could not be written fails")
+	}
+	if err != nil {
+		vrt.Assert(tr.Dead, "NewStream only fails because of the fault")
+		vrt.Cover("send-fault-newstream")
+		conn.Close()
+		return
+	}
+	msgs := [][]byte{{1}, {2, 3, 4, 5, 6, 7, 8, 9, 10, 11, 12, 13}, {14}}
+	okSent := 0
+	for i := range msgs {
+		m := msgs[i]
+		err := st.MsgSend(&m, enc)
+		if tr.Dead {
+			vrt.Assert(err != nil, "a send during or after the transport failure returns an error")
+		}
+		if err != nil {
+			break
+		}
+		okSent++
+	}
+	pkts, ok := hx.ParseOut(tr.Out)
+	vrt.Assert(ok, "bytes written before the fault are whole well-formed frames")
+	got := 0
+	for _, p := range pkts {
+		if p.Kind == drpcwire.KindMessage {
+			vrt.Assert(got < len(msgs) && len(p.Data) == len(msgs[got]), "messages on the wire are the ones sent, in order")
+			got++
+		}
+	}
+	vrt.Assert(got >= okSent, "every send that reported success is completely on the transport")
+	vrt.Cover("send-fault-end")
+	conn.Close()
 }
